@@ -62,11 +62,12 @@ theorem refsOf_setEffect {l l' : List (MKey × Elem)} {k : MKey} {sv : Elem} {ol
     (hnew : ∀ id, refOf (k, sv) = some id → id ∉ refsOf l) :
     (refsOf l').Nodup ∧ (∀ id ∈ refsOf l', id ∈ refsOf l ∨ refOf (k, sv) = some id) ∧
     (∀ id, refOf (k, sv) = some id → id ∈ refsOf l') ∧
-    (∀ v0 id, old = some v0 → v0.pay = .ref id → id ∈ refsOf l ∧ id ∉ refsOf l') := by
+    (∀ v0 id, old = some v0 → v0.pay = .ref id → id ∈ refsOf l ∧ id ∉ refsOf l') ∧
+    (∀ id ∈ refsOf l, id ∈ refsOf l' ∨ ∃ v0, old = some v0 ∧ v0.pay = .ref id) := by
   rcases h with ⟨ho, _, A, B, rfl, rfl⟩ | ⟨v0, A, B, ho, rfl, rfl⟩
   · rw [refsOf_append] at hnd hnew
     rw [refsOf_zip, refsOf_append]
-    refine ⟨?_, ?_, ?_, ?_⟩
+    refine ⟨?_, ?_, ?_, ?_, ?_⟩
     · cases hs : refOf (k, sv) with
       | none => simpa using hnd
       | some y =>
@@ -90,6 +91,12 @@ theorem refsOf_setEffect {l l' : List (MKey × Elem)} {k : MKey} {sv : Elem} {ol
       simp only [List.mem_append, Option.mem_toList]
       exact Or.inr (Or.inl hid)
     · intro v0 id h0; subst ho; cases h0
+    · intro id hid
+      left
+      simp only [List.mem_append, Option.mem_toList] at hid ⊢
+      rcases hid with h | h
+      · exact Or.inl h
+      · exact Or.inr (Or.inr h)
   · rw [refsOf_zip] at hnd hnew
     rw [refsOf_zip, refsOf_zip]
     have hkey : ∀ (o : Option SlabID), (refsOf A ++ (o.toList ++ refsOf B)).Nodup →
@@ -98,7 +105,7 @@ theorem refsOf_setEffect {l l' : List (MKey × Elem)} {k : MKey} {sv : Elem} {ol
       refine hn.sublist ?_
       exact List.Sublist.append (List.Sublist.refl _) (List.sublist_append_right _ _)
     have hAB := hkey _ hnd
-    refine ⟨?_, ?_, ?_, ?_⟩
+    refine ⟨?_, ?_, ?_, ?_, ?_⟩
     · cases hs : refOf (k, sv) with
       | none => simpa using hAB
       | some y =>
@@ -140,18 +147,25 @@ theorem refsOf_setEffect {l l' : List (MKey × Elem)} {k : MKey} {sv : Elem} {ol
       refine ⟨hidA, ?_, hidB⟩
       intro hs
       exact hnew id hs hin
+    · intro id hid
+      simp only [List.mem_append, Option.mem_toList] at hid ⊢
+      rcases hid with h | h | h
+      · exact Or.inl (Or.inl h)
+      · exact Or.inr ⟨v0, ho, refOf_eq_some.1 h⟩
+      · exact Or.inl (Or.inr (Or.inr h))
 
 /-- `remove`: the effect on the reference ids -/
 theorem refsOf_remEffect {l l' : List (MKey × Elem)} {k : MKey} {v : Elem}
     (h : RemEffect l l' k v) (hnd : (refsOf l).Nodup) :
     (refsOf l').Nodup ∧ (∀ id ∈ refsOf l', id ∈ refsOf l) ∧
-    (∀ id, v.pay = .ref id → id ∈ refsOf l ∧ id ∉ refsOf l') := by
+    (∀ id, v.pay = .ref id → id ∈ refsOf l ∧ id ∉ refsOf l') ∧
+    (∀ id ∈ refsOf l, id ∈ refsOf l' ∨ v.pay = .ref id) := by
   obtain ⟨A, B, rfl, rfl⟩ := h
   rw [refsOf_zip] at hnd ⊢
   rw [refsOf_append]
   have hAB : (refsOf A ++ refsOf B).Nodup :=
     hnd.sublist (List.Sublist.append (List.Sublist.refl _) (List.sublist_append_right _ _))
-  refine ⟨hAB, ?_, ?_⟩
+  refine ⟨hAB, ?_, ?_, ?_⟩
   · intro id hid
     simp only [List.mem_append] at hid ⊢
     rcases hid with h | h
@@ -167,6 +181,12 @@ theorem refsOf_remEffect {l l' : List (MKey × Elem)} {k : MKey} {v : Elem}
     have hidB : id ∉ refsOf B := (List.nodup_cons.1 hnd.2.1).1
     simp only [List.mem_append, not_or]
     exact ⟨hidA, hidB⟩
+  · intro id hid
+    simp only [List.mem_append, Option.mem_toList] at hid ⊢
+    rcases hid with h | h | h
+    · exact Or.inl (Or.inl h)
+    · exact Or.inr (refOf_eq_some.1 h)
+    · exact Or.inl (Or.inr h)
 
 end OMap
 
@@ -218,7 +238,9 @@ theorem omap_set_refs (hT : legalThreshold T = true) {cfg : MCfg} {m : OMap r} (
     (∀ id, (storedValue cfg k v c).pay = .ref id →
       id = ⟨m.addr, c.ctr + 1⟩ ∧ id ∈ m'.refIds ∧ id ∉ m.refIds ∧
       id ∉ AList.keys (MTree.slabs m.d m.root) ∧ id ∉ AList.keys (MTree.slabs m'.d m'.root) ∧
-      (E2EM.tsv cfg k v c).2.created = c.created ++ [(id, v)]) := by
+      (E2EM.tsv cfg k v c).2.created = c.created ++ [(id, v)]) ∧
+    (∀ id ∈ m.refIds, id ∈ m'.refIds ∨ ∃ v0, old = some v0 ∧ v0.pay = .ref id) ∧
+    c'.created = (E2EM.tsv cfg k v c).2.created := by
   have hs := OMap.set_spec hT hcfg h hk hv c
   by_cases hl : TLimited cfg m.d m.root k
   · rw [hs.1 hl] at hr; cases hr
@@ -257,12 +279,12 @@ theorem omap_set_refs (hT : legalThreshold T = true) {cfg : MCfg} {m : OMap r} (
   have hnew' : ∀ id, OMap.refOf (k, storedValue cfg k v c) = some id → id ∉ OMap.refsOf m.toList := by
     intro id hid
     exact (hnewref id (OMap.refOf_eq_some.1 hid)).2.1
-  obtain ⟨g1, g2, g3, g4⟩ := OMap.refsOf_setEffect hp.eff hrefs.1 hnew'
+  obtain ⟨g1, g2, g3, g4, g6⟩ := OMap.refsOf_setEffect hp.eff hrefs.1 hnew'
   have hold_ok : ∀ id ∈ m.refIds, id ∉ AList.keys (MTree.slabs m'.d m'.root) := by
     intro id hid
     obtain ⟨h1, _, _, h4⟩ := hrefs.2 id hid
     exact ref_not_in_new_tree hacct h1 h4
-  refine ⟨⟨g1, ?_⟩, hle, ?_, ?_, ?_⟩
+  refine ⟨⟨g1, ?_⟩, hle, ?_, ?_, ?_, g6, by rw [hlog'.created]; exact hC⟩
   · intro id hid
     rcases g2 id hid with h1 | h1
     · obtain ⟨_, q2, q3, q4⟩ := hrefs.2 id h1
@@ -298,7 +320,8 @@ theorem omap_remove_refs (hT : legalThreshold T = true) {cfg : MCfg} {m : OMap r
     MRefsOk m' c'.ctr ∧ c.ctr ≤ c'.ctr ∧ c'.created = c.created ∧
     (∀ id ∈ m'.refIds, id ∈ m.refIds) ∧
     (∀ id, v0.pay = .ref id →
-      id ∈ m.refIds ∧ id ∉ m'.refIds ∧ id ∉ AList.keys (MTree.slabs m'.d m'.root)) := by
+      id ∈ m.refIds ∧ id ∉ m'.refIds ∧ id ∉ AList.keys (MTree.slabs m'.d m'.root)) ∧
+    (∀ id ∈ m.refIds, id ∈ m'.refIds ∨ v0.pay = .ref id) := by
   have hs := OMap.remove_spec hT hcfg h hk c hc
   by_cases hex : ∃ w, (k, w) ∈ m.toList
   · obtain ⟨w, hw⟩ := hex
@@ -311,12 +334,12 @@ theorem omap_remove_refs (hT : legalThreshold T = true) {cfg : MCfg} {m : OMap r
     have hcre : c'.created = c.created := by rw [hlog'.created]; simp
     have haddr' : m'.addr = m.addr := by unfold OMap.addr; rw [hrid]
     have hle : c.ctr ≤ c'.ctr := hacct.le
-    obtain ⟨g1, g2, g3⟩ := OMap.refsOf_remEffect hp.eff hrefs.1
+    obtain ⟨g1, g2, g3, g4⟩ := OMap.refsOf_remEffect hp.eff hrefs.1
     have hold_ok : ∀ id ∈ m.refIds, id ∉ AList.keys (MTree.slabs m'.d m'.root) := by
       intro id hid
       obtain ⟨h1, _, _, h4⟩ := hrefs.2 id hid
       exact ref_not_in_new_tree hacct h1 h4
-    refine ⟨⟨g1, ?_⟩, hle, hcre, g2, ?_⟩
+    refine ⟨⟨g1, ?_⟩, hle, hcre, g2, ?_, g4⟩
     · intro id hid
       have h1 := g2 id hid
       obtain ⟨_, q2, q3, q4⟩ := hrefs.2 id h1
